@@ -522,6 +522,54 @@ def run_c08(chk):
                 chk.fail("crash:" + row.f.get("msg", "")[:50], row.raw[:160], session_replay(a))
         sessions.append(a.ops)
         chk.case((line_in, reply, extra, reenters), sample={"line": line_in, "reply": reply + extra, "reenters": reenters})
+    # a reply that is still pending when the host breaks in: CONT must consume it (only the INPUT is re-executed),
+    # RUN must not (the new run's first INPUT awaits input having executed nothing beyond the statements before it)
+    n2 = 24 if chk.tier == "quick" else 400
+    for i in range(n2):
+        r = chk.rng.fork(("c08-stale", i))
+        tgt, kind = r.choice([t for t in TARGETS if "(" not in t[0]])
+        reply, literal = r.choice(NUM_REPLIES if kind == "num" else STR_REPLIES)
+        if not reply.strip():
+            reply, literal = ("7", "7") if kind == "num" else ("zz", '"zz"')
+        prog = ["10 PRINT \"start\"", "20 INPUT " + tgt, "30 PRINT \"v=\";" + tgt, "40 INPUT " + tgt, "50 PRINT \"w=\";" + tgt, "60 END"]
+        second = "5" if kind == "num" else "yy"
+        use_run = (i % 2 == 0)
+        a = sess.Session(h)
+        enter_program(a, prog)
+        sa = len(a.ops)
+        a.line("RUN")
+        guard = 0
+        while not a.dead and guard < 50 and a.state == "Running":
+            guard += 1
+            a.cont()
+        if a.state != "AwaitingInput":
+            continue
+        a.reply(reply)                # the reply is pending ...
+        a.brk()                       # ... when the host breaks in
+        mark = len(a.ops)
+        if a.state == "Idle":
+            a.line("RUN" if use_run else "CONT")
+        a.run_until_idle(replies=[second, second, second], max_turns=80)
+        # the reference: the same program without the break
+        b = sess.Session(h)
+        enter_program(b, prog)
+        sb = len(b.ops)
+        b.line("RUN")
+        b.run_until_idle(replies=([second, second] if use_run else [reply, second]), max_turns=80)
+        eva = [e for e in events([row for _, row in a.ops[mark:]]) if e != ("?",)]
+        evb = [e for e in events([row for _, row in b.ops[sb:]]) if e != ("?",)]
+        if not use_run:
+            # CONT: what is printed after the break = what the uninterrupted run prints after consuming the reply
+            evb = evb[-len(eva):] if eva and len(evb) >= len(eva) else evb
+        chk.count("stale-reply:" + ("RUN" if use_run else "CONT"))
+        if eva != evb:
+            chk.fail("pending-reply-" + ("leaks-into-run" if use_run else "lost-at-cont"),
+                     f"reply {reply!r} pending at a break, then {'RUN' if use_run else 'CONT'}: {eva!r:.300} instead of {evb!r:.300}", session_replay(a))
+        for _, row in a.ops:
+            if row.kind in ("panic", "abort"):
+                chk.fail("crash:" + row.f.get("msg", "")[:50], row.raw[:160], session_replay(a))
+        sessions.append(a.ops)
+        chk.case(("stale", tgt, reply, use_run), sample={"program": prog, "pending_reply": reply, "then": "RUN" if use_run else "CONT"})
     h.close()
     session_correspondence(chk, "C08-input", sessions, ["outcome", "state", "outputs", "snap"])
 
@@ -618,6 +666,33 @@ def run_c09(chk):
             chk.count("immediate-calls")
         sessions.append(s.ops)
         chk.case(("imm", i, tuple(o[1] for o, _ in s.ops[first:] if o[0] == "line")), sample={"immediate": [o[1].decode() for o, _ in s.ops[first:] if o[0] == "line"][:3]})
+    # the same on the Web front end: one timer tick of the page = one call of the core = one statement, also when
+    # the statements print nothing (the page harness runs the adapter and the core side by side)
+    from . import web as webmod
+    SILENT = [["10 FOR I = 1 TO 6", "20 X = X + I", "30 NEXT I", "40 PRINT X"],
+              ["10 X = X + 1 : Y = Y + 2 : Z = X + Y", "20 IF X < 4 THEN 10", "30 PRINT X; Y; Z"],
+              ["10 GOSUB 100 : GOSUB 100", "20 PRINT N : END", "100 N = N + 1 : RETURN"],
+              ["10 READ A : READ B : C = A + B", "20 DATA 4, 5", "30 PRINT C"]]
+    for k, prog in enumerate(SILENT if chk.tier == "quick" else SILENT * 3):
+        cmds = ["page\tnew", "page\tseed\t%d" % (k + 1)]
+        h.cmd("page", "new")
+        h.cmd("page", "seed", str(k + 1))
+        events = [("load", "\n".join(prog)), ("start", "")] + [("tick", "")] * (12 + 4 * (k % 3))
+        for ev, text in events:
+            cmds.append("page\t%s\t%s" % (ev, esc(text.encode("utf-8"))))
+            resp = h.cmd("page", ev, esc(text.encode("utf-8")))
+            pg = webmod.parse_page(resp)
+            rep = {"events": [list(e) for e in events], "harness_commands": list(cmds), "response": resp[:600]}
+            if pg["verdict"] in ("dead", "TRAP", "THROW"):
+                chk.fail("web-tick:" + pg["verdict"], f"page event {ev}: {pg.get('raw_verdict', '')[:120]}", rep)
+                break
+            bad = [l for l in pg["log"] if l.startswith("MISMATCH")]
+            if bad:
+                chk.fail("web-tick-not-one-statement", f"after page event {ev}: adapter and core disagree ({bad[0][:160]}): "
+                         "a tick did not execute exactly what one core call executes", rep)
+                break
+        chk.count("web-ticks")
+        chk.case(("web", k, tuple(prog)), sample={"page_program": prog})
     h.close()
     session_correspondence(chk, "C09-turns", sessions, ["outcome", "state", "outputs", "reads", "snap"])
 
